@@ -413,9 +413,14 @@ func runWorker(bin string, f *Family, tier, variant string, shards [][]int, next
 		sc.Buffer(make([]byte, 1<<20), 256<<20)
 		for sc.Scan() {
 			var m workerMsg
-			if json.Unmarshal(sc.Bytes(), &m) == nil {
+			if err := json.Unmarshal(sc.Bytes(), &m); err == nil {
 				msgs <- m
+			} else {
+				msgs <- workerMsg{T: "err", Err: "unreadable worker message: " + err.Error() + ": " + tail(string(sc.Bytes()), 200)}
 			}
+		}
+		if err := sc.Err(); err != nil {
+			msgs <- workerMsg{T: "err", Err: "reading worker output: " + err.Error()}
 		}
 		close(msgs)
 	}()
@@ -631,6 +636,12 @@ func parentMain(spec *Spec, tier string, only []string) int {
 	start := time.Now()
 	seed, _ := strconv.ParseInt(os.Getenv("VERIF_SEED"), 10, 64)
 	bins := variantBins()
+	// replay files of earlier runs of this check are stale
+	if old, _ := filepath.Glob(filepath.Join(root(), "replays", spec.ID+"-*.json")); len(only) == 0 {
+		for _, f := range old {
+			os.Remove(f)
+		}
+	}
 	var results []*famResult
 	for _, f := range spec.Families {
 		if !f.runsIn(tier) {
@@ -742,8 +753,12 @@ func parentMain(spec *Spec, tier string, only []string) int {
 		rec := map[string]any{"property": spec.ID, "tier": tier, "violation": v, "count_in_run": violN[s]}
 		b, _ := json.MarshalIndent(rec, "", " ")
 		os.WriteFile(path, b, 0o644)
-		fmt.Printf("VIOLATION property=%s replay=%s\n", spec.ID, path)
-		fmt.Printf("  sig=%s\n  %s\n  cases_with_this_signature=%d\n", s, v.Msg, violN[s])
+		if nViol <= 40 {
+			fmt.Printf("VIOLATION property=%s replay=%s\n", spec.ID, path)
+			fmt.Printf("  sig=%s\n  %s\n  cases_with_this_signature=%d\n", s, v.Msg, violN[s])
+		} else if nViol == 41 {
+			fmt.Printf("(further violation signatures are written to %s but not printed)\n", filepath.Join(root(), "replays"))
+		}
 	}
 	osigs := make([]string, 0, len(open))
 	for s := range open {
